@@ -257,6 +257,8 @@ pub fn record(args: &Args) {
         .into_iter()
         .filter(|(name, _)| ["kuhn", "shared8", "rare", "lonely", "pennies", "coins"].contains(&name.as_str()))
         .collect();
+    // WIDTH: 300 actions / 300 chance outcomes (long weight vectors, indices beyond u8)
+    games.push(("wide300".to_string(), zoo::wide()));
     let mut rng = Rng::new(seed ^ 0xc10);
     for id in 0..n {
         let mut r = rng.fork();
